@@ -42,7 +42,11 @@ func Init(p Params) {
 		keystore.DefaultScryptOptions = keystore.ScryptOptions{N: 16, R: 8, P: 1}
 		consensus.CoinbaseMaturity = p.CoinbaseMaturity
 		consensus.MinFrozenPeriod = p.MinFrozenPeriod
-		logging.Init(os.TempDir(), "verif-sim", "fatal", 1, false)
+		lvl := "fatal"
+		if v := os.Getenv("VERIF_LOG"); v != "" {
+			lvl = v
+		}
+		logging.Init(os.TempDir(), "verif-sim", lvl, 1, false)
 	})
 }
 
